@@ -9,6 +9,7 @@ case : {"dim":2|3, "npatch":2|3, "mapped":bool, "conn":[[[p,axis,ext],[q,axis,ex
         "terms":[{"iface":k|"all","expr":G}], "volume":null|"mass", "seed":n}
 G    : {"k":"num","p","q"} {"k":"const","name"} {"k":"coord","i"} {"k":"fn","name"} {"k":"nn"}
        {"k":"add","a":[..]} {"k":"mul","a":[..]} {"k":"pow","b":G,"e":n}
+       {"k":"comp","a":[G],"i":n}   component: minus(F)[i] / plus(F)[i] of a restricted vector function, nn[i]
        {"k":"op","name":jump|avg|minus|plus|Dn|grad|div|dot,"a":[..]}
        The argument of jump / avg / minus / plus may be COMPOUND (dot(grad(w), nn), dot(F, nn), f*w, f**2, div(grad(w))):
        by definition the restriction acts on every function and on the normal vector inside (class Lower).
@@ -182,6 +183,8 @@ class World:
             return r
         if k == "pow":
             return self.build(g["b"]) ** int(g["e"])
+        if k == "comp":
+            return self.build(g["a"][0])[int(g["i"])]
         if k == "op":
             ops = {"jump": jump, "avg": avg, "minus": minus, "plus": plus, "Dn": Dn, "grad": grad, "div": div,
                    "dot": dot}
@@ -256,6 +259,10 @@ class Lower:
         if isinstance(e, (MinusNormalVector, PlusNormalVector, NormalVector)):
             side = "-" if isinstance(e, MinusNormalVector) else "+" if isinstance(e, PlusNormalVector) else "0"
             return [self.normal(side, i) for i in range(dim)]
+        if isinstance(e, sp.Indexed) and isinstance(e.base, NormalVector):
+            b = e.base
+            side = "-" if isinstance(b, MinusNormalVector) else "+" if isinstance(b, PlusNormalVector) else "0"
+            return self.normal(side, int(e.indices[0]))
         if isinstance(e, Symbol):
             names = LOGI if self.w.lg else PHYS
             if e.name in names:
@@ -860,7 +867,7 @@ def g_push_all(g):
         if g["name"] == "jump":
             return {"k": "add", "a": [m, {"k": "mul", "a": [{"k": "num", "p": -1, "q": 1}, p]}]}
         return {"k": "mul", "a": [{"k": "num", "p": 1, "q": 2}, {"k": "add", "a": [m, p]}]}
-    if k in ("add", "mul", "op"):
+    if k in ("add", "mul", "op", "comp"):
         return dict(g, a=[g_push_all(a) for a in g["a"]])
     if k == "pow":
         return dict(g, b=g_push_all(g["b"]))
